@@ -20,6 +20,7 @@ type Summary struct {
 	GatePairs     int      `json:"gate_pairs"`
 	GateSubmits   int      `json:"gate_submits"`
 	GateAccepted  int      `json:"gate_accepted"`
+	Histories     int      `json:"gate_histories"`
 	Batches       int      `json:"gate_batches"`  // scenarios with several submissions queued behind a held chain query
 	Announcements int      `json:"announcements"` // event.ManifestReceived observed on the real bus
 	HashBases     int      `json:"hash_bases"`
@@ -187,6 +188,18 @@ func run(in, out, sumPath string, seed int64, nGate, nHash, perms, schemes int, 
 					s.GateSubmits++
 					if b.Accepted {
 						s.GateAccepted++
+					}
+				}
+				return w.Write(l)
+			}, func(l HistLine) error {
+				s.Histories++
+				for _, st := range l.Steps {
+					s.Announcements += len(st.Ann)
+					if st.Op == "sub" {
+						s.GateSubmits++
+						if st.Accepted {
+							s.GateAccepted++
+						}
 					}
 				}
 				return w.Write(l)
